@@ -15,6 +15,7 @@ import (
 type Prelude struct {
 	Name     string
 	Theories []string
+	Boxes    []string
 	Types    []string
 	Items    []PreludeItem
 }
@@ -144,6 +145,9 @@ func LoadPrelude(name string) (*Prelude, error) {
 		if strings.HasPrefix(l, ";; type ") {
 			p.Types = append(p.Types, strings.TrimSpace(l[8:]))
 		}
+		if strings.HasPrefix(l, ";; box ") {
+			p.Boxes = append(p.Boxes, strings.TrimSpace(l[7:]))
+		}
 		if strings.HasPrefix(l, ";; theory ") {
 			p.Theories = append(p.Theories, strings.TrimSpace(l[10:]))
 		}
@@ -229,6 +233,13 @@ func (ex *Exec) usePrelude(name string) error {
 				ex.U.boxName(t)
 			}
 		}
+	}
+	for _, tn := range p.Boxes {
+		t, err := ex.P.ResolveType(tn)
+		if err != nil {
+			return fmt.Errorf("prelude %s: %v", name, err)
+		}
+		ex.U.boxName(t)
 	}
 	for _, th := range p.Theories {
 		if th == "rules" {
